@@ -47,10 +47,13 @@ def gen_case(run, i):
             rh = -(-(ref.ytop - (src.ytop - sh * ps)) // pr) + 2
             src, ref = rasters.Grid(src.x0, src.ytop, ps, ps, sw, sh, u), rasters.Grid(ref.x0, ref.ytop, pr, pr, rw, rh, u)
     nsb, nrb = rng.choice([(1, 1), (2, 3), (3, 3), (3, 4)])
+    if i % 8 == 6:
+        nsb, nrb = rng.choice([(4, 4), (4, 5), (3, 3)])   # byte outputs with 3 / 4 bands: layouts GDAL may take for RGB(A)
     sel = ['default', 'ref-order', 'subset'][(i // 4) % 3] if nsb > 1 else 'default'
     return dict(i=i, family=family, crs=crs, proc=proc, src=src.to_dict(), ref=ref.to_dict(), nsb=nsb, nrb=nrb, sel=sel,
                 south=south, model=rng.choice(['gain', 'gain-blk-offset', 'gain-offset']),
-                kernel=rng.choice([(3, 3), (3, 5), (5, 3)]), halvings=rng.choice([0, 2]), dtype=rng.choice(['float32', 'int16']),
+                kernel=rng.choice([(3, 3), (3, 5), (5, 3)]), halvings=rng.choice([0, 2]),
+                dtype='uint8' if i % 8 == 6 else rng.choice(['float32', 'int16']),
                 threads=rng.choice([1, 2]))
 
 
@@ -105,7 +108,7 @@ def run(run: common.Run):
                 res, hv = fusion.run_fuse_blocks(case['halvings'], src, ref, proc_ref, pair.src_path, pair.ref_path, d / 'out.tif',
                                                  model=case['model'], kernel_shape=case['kernel'], proc_crs=case['proc'], param=True,
                                                  threads=case['threads'], src_bands=sb, ref_bands=rb,
-                                                 out_profile=dict(dtype=case['dtype'], nodata=-9999 if case['dtype'] != 'float32' else float('nan')))
+                                                 out_profile=dict(dtype=case['dtype'], nodata={'float32': float('nan'), 'int16': -9999, 'uint8': 0}[case['dtype']]))
                 outs[variant] = (res, pair)
         except BlockSizeError:
             run.hist['processing window smaller than the overlap: skipped'] += 1
@@ -127,6 +130,8 @@ def run(run: common.Run):
         etr = tuple(src.transform)[:6]
         if (prof['width'], prof['height']) != (src.w, src.h) or any(abs(a - b) > 1e-9 for a, b in zip(tr, etr)) or prof['crs'] != the_crs:
             bad = f'corrected image grid {prof["width"]}x{prof["height"]} {tr} is not the north-up source grid {src.w}x{src.h} {etr}'
+        elif 'alpha' in res.colorinterp:
+            bad = f'corrected band {res.colorinterp.index("alpha") + 1} is flagged as an alpha band (colour interpretation {res.colorinterp})'
         elif prof['count'] != len(res.src_bands):
             bad = f'corrected image has {prof["count"]} bands for {len(res.src_bands)} matched source bands'
         # expected matching: source band k <-> reference position holding wavelength ~ k
